@@ -66,6 +66,23 @@ def check_generic(c):
     y = CfdpLv.unpack(buf)
     scribble(buf)
     eq(devs, "lv.dec.value_after_caller_reused_buffer", bytes(y.value), v)
+    # the same for LVs made from text (from_str / from_path): the first result is changed by its owner, the same text asked for again
+    try:
+        text = v.decode("utf-8")
+    except UnicodeDecodeError:
+        text = None
+    if text is not None:
+        import pathlib
+
+        for route, mk_lv in (("from_str", lambda: CfdpLv.from_str(text)), ("from_path", lambda: CfdpLv.from_path(pathlib.PurePosixPath(text)))):
+            w_route = R.lv(text.encode("utf-8")) if route == "from_str" else R.lv(str(pathlib.PurePosixPath(text)).encode("utf-8"))
+            if len(w_route) > 256:
+                continue
+            first = mk_lv()
+            eq(devs, f"lv.{route}.pack", bytes(first.pack()), w_route)
+            first.value = b"changed"
+            first.value_len = 7
+            eq(devs, f"lv.{route}.again_after_earlier_result_was_modified", bytes(mk_lv().pack()), w_route)
     # a decoded LV is filled in by its owner afterwards (plain attributes); decoding the same octets again gives the original again
     y.value = b"changed"
     y.value_len = 7
